@@ -360,9 +360,9 @@ func concCase(seed uint64, idx int, flush bool) *CaseSpec {
 			}
 		}
 		if len(problems) > 0 {
-			t.Add("conc.result 0 %s", S(problems[0]))
+			t.Add("conc.result 0 %s %s", S(problems[0]), B(flush))
 		} else {
-			t.Add("conc.result 1 %s", S(fmt.Sprintf("sessions=%d rounds=%d max=%s", n, rounds, encElec(maxID))))
+			t.Add("conc.result 1 %s %s", S(fmt.Sprintf("sessions=%d rounds=%d max=%s", n, rounds, encElec(maxID))), B(flush))
 		}
 		// RIB invariants on the final state (counters = referrers, closure unless flushed)
 		if err := ObsRIB(t, h.S.VerifRIB()); err != nil {
@@ -395,5 +395,5 @@ func init() {
 		Serial:   true,
 		Atomic:   true,
 	}
-	props["C11"] = &PropSpec{Mode: "conc", Diffs: []string{"conc", "refs", "hang", "crash"}, Monitors: []string{"c11", "c03"}}
+	props["C11"] = &PropSpec{Mode: "conc", Extra: []string{"gap"}, Diffs: []string{"conc", "refs", "hang", "crash", "add.", "del.", "ents", "pend"}, Monitors: []string{"c11", "c03", "c01", "c02"}}
 }
